@@ -8,5 +8,5 @@ rsync -a --exclude .git "${VERIF_REPO:-/repo}"/ "$SCR/repo/"
 ( cd "$VERIF" && go build -o bin/instrument ./cmd/instrument && go build -o bin/simdrive ./cmd/simdrive )
 "$VERIF/bin/instrument" -root "$SCR/repo" -sites "$SCR/sites.json" >/dev/null
 sed "s#=> /repo#=> $SCR/repo#" "$VERIF/go.mod" > "$SCR/go.mod"; cp "$VERIF/go.sum" "$SCR/go.sum"
-( cd "$VERIF" && go build -race -trimpath -overlay "$("$VERIF/mkoverlay.sh")" -modfile="$SCR/go.mod" -o "$SCR/simworld" ./cmd/simworld )
+( cd "$VERIF" && go build -race -trimpath -overlay "$("$VERIF/mkoverlay.sh")" -ldflags "-X verif/simrt/simtime.mode=virtual" -modfile="$SCR/go.mod" -o "$SCR/simworld" ./cmd/simworld )
 echo "$SCR/simworld"
